@@ -185,10 +185,11 @@ func (a *Agent) GatherCandidates() error {
 		a.gatherCandidateCancel() // Cancel previous gathering routine
 		ctx, cancel := context.WithCancel(context.WithValue(context.WithValue(ctx, gatherUfragKey{}, a.localUfrag), gatherURLsKey{}, a.urls))
 		a.gatherCandidateCancel = cancel
+		prevDone := a.gatherCandidateDone
 		done := make(chan struct{})
 		a.gatherCandidateDone = done
 
-		go a.gatherCandidates(ctx, done)
+		go a.gatherCandidates(ctx, done, prevDone)
 	}); runErr != nil {
 		return runErr
 	}
@@ -196,8 +197,16 @@ func (a *Agent) GatherCandidates() error {
 	return gatherErr
 }
 
-func (a *Agent) gatherCandidates(ctx context.Context, done chan struct{}) { //nolint:cyclop
+func (a *Agent) gatherCandidates(ctx context.Context, done chan struct{}, prevDone <-chan struct{}) { //nolint:cyclop
 	defer close(done)
+	// A cycle superseded by Restart may still be winding down (a gatherer parked in a call that
+	// does not watch its context): Close waits for the latest done channel only, so this one is
+	// closed after the earlier cycle's.
+	defer func() {
+		if prevDone != nil {
+			<-prevDone
+		}
+	}()
 	applied, err := a.setGatheringState(ctx, GatheringStateGathering)
 	if err != nil {
 		a.log.Warnf("Failed to set gatheringState to GatheringStateGathering: %v", err)
